@@ -20,6 +20,10 @@ ROOTS = os.path.join(VERIF, "roots")
 CACHE = os.path.join(VERIF, ".cache")
 
 
+class ExtractionError(Exception):
+    pass
+
+
 def _hash_tree(h, root, rel_ok):
     for dirpath, dirnames, filenames in os.walk(root):
         dirnames[:] = sorted(d for d in dirnames if d not in ("target", ".git"))
@@ -100,10 +104,10 @@ def extract(verbose=False):
         p = subprocess.run(["cargo", "+nightly", "check", "--offline", "-j", "16"], cwd=rc, env=env, capture_output=True, text=True)
         if p.returncode != 0:
             sys.stderr.write(p.stderr[-6000:])
-            raise RuntimeError("extraction build failed (the tree under %s does not compile with all features?)" % REPO)
+            raise ExtractionError("extraction build failed (the tree under %s does not compile with all features?)" % REPO)
         for fn in ("json_syntax.items.json", "jsvroots.program.json"):
             if not os.path.exists(os.path.join(out, fn)):
-                raise RuntimeError("extraction did not produce %s (driver not invoked?)" % fn)
+                raise ExtractionError("extraction did not produce %s (driver not invoked?)" % fn)
         tmpd = d + ".tmp%d" % os.getpid()
         if os.path.exists(tmpd):
             shutil.rmtree(tmpd)
